@@ -79,7 +79,21 @@ def one_case(rng, tmpdir, tier, fails, stats, seen):
         data = sargen.pixel_array(rng, rows, cols, pt)
     nseg = 1 if not row_limit else -(-rows // row_limit)
     seen.add((pt, min(nseg, 4), rows > 2048 or cols > 2048))
-    meta.ImageCreation = None
+    # the creation block the caller supplies: absent, partial (no DateTime) or complete.  The writer stamps Profile (and DateTime when
+    # missing); everything else the caller supplied must come back
+    from sarpy.io.complex.sicd_elements.ImageCreation import ImageCreationType
+    icv = rng.choice(['absent', 'absent', 'app+site', 'site', 'complete'])
+    if icv == 'absent':
+        meta.ImageCreation = None
+    elif icv == 'app+site':
+        meta.ImageCreation = ImageCreationType(Application='harness 1.0', Site='site A')
+    elif icv == 'site':
+        meta.ImageCreation = ImageCreationType(Site='site B')
+    else:
+        meta.ImageCreation = ImageCreationType(Application='harness 2.0', Site='site C', DateTime=numpy.datetime64('2020-02-03T04:05:06'), Profile='old profile')
+    supplied = None if meta.ImageCreation is None else {k: getattr(meta.ImageCreation, k) for k in ('Application', 'Site', 'DateTime')}
+    case = dict(case, image_creation=icv)
+    seen.add(('image-creation', icv))
     # reference history: one whole write to a path
     logging.disable(logging.CRITICAL)
     try:
@@ -119,6 +133,13 @@ def one_case(rng, tmpdir, tier, fails, stats, seen):
             m = meta_diff(strip(a.to_dict()), strip(b.to_dict()))
             if m:
                 fails.append({'kind': 'metadata', 'msg': 'metadata differs after write/read: ' + m, 'case': case})
+            ic = rdr.sicd_meta.ImageCreation
+            if ic is None or ic.DateTime is None or ic.Profile is None:
+                fails.append({'kind': 'metadata', 'msg': f'ImageCreation after write/read is not stamped (Profile / DateTime): {None if ic is None else ic.to_dict()}', 'case': case})
+            elif supplied is not None:
+                for k_, v_ in supplied.items():
+                    if v_ is not None and getattr(ic, k_) != v_:
+                        fails.append({'kind': 'metadata', 'msg': f'ImageCreation.{k_} supplied as {v_!r} reads back as {getattr(ic, k_)!r} (the writer stamps Profile, and DateTime only when missing)', 'case': case})
         finally:
             rdr.close()
     except Exception as e:
@@ -156,9 +177,19 @@ def run(tier):
     sarpy_guard()
     chk = Check('C02', tier)
     rng = chk.rng
-    broken = chk.prove(['SarpyModel.Props.C02', 'SarpyModel.Drivers'], 'SarpyModel.Props.C02', 'Sarpy.Props.C02', REQUIRED)
+    # the segmentation loop is regenerated from /repo (translate/gen_loops.py) and bridged to Spec.Layout.segmentation: the row routing theorem then
+    # holds for the regenerated code (Bridge/LoopsPipe.lean)
+    import loops2
+    l_info = loops2.regen('nitf')
+    broken = chk.prove(['SarpyModel.Props.C02', 'SarpyModel.Bridge.LoopsPipe', 'SarpyModel.Drivers'], 'SarpyModel.Props.C02', 'Sarpy.Props.C02', REQUIRED,
+                       {'loop_kernels': l_info},
+                       extra=[('SarpyModel.Bridge.LoopsPipe', 'Sarpy.Bridge.LP', ['gen_segmentation_split_join']),
+                              ('SarpyModel.Bridge.Loops', 'Sarpy.Bridge.L', ['gen_seg_cond', 'gen_seg_body', 'gen_default_image_segmentation'])])
+    if [u for u in l_info['unsupported'] if u[0] == 'default_image_segmentation']:
+        broken.append('translator could not express: ' + json.dumps(l_info['unsupported']))
     fails = []
     stats = {}
+    disagreements = []
     seen = set()
     tmpdir = tempfile.mkdtemp(prefix='c02_', dir=os.environ.get('VERIF_SCRATCH', '/var/tmp'))
     try:
@@ -167,8 +198,10 @@ def run(tier):
     finally:
         shutil.rmtree(tmpdir, ignore_errors=True)
         logging.disable(logging.NOTSET)
+    # segmentation kernel: implementation vs regenerated Lean vs reference definition + direct tiling oracle
+    nseg = loops2.run_kernels(rng, tier, ['seg'], fails, disagreements, stats, relax=('seg-limit',))
     chk.coverage.update({
-        'evaluations': stats.get('files', 0) + stats.get('histories', 0),
+        'evaluations': stats.get('files', 0) + stats.get('histories', 0) + nseg,
         'distinct_nontrivial': len(seen),
         'rule': 'random image sizes (2..48 rows/cols plus > 2048 strips), pixel types RE32F_IM32F / RE16I_IM16I / AMP8I_PHS8I (random strictly increasing table), '
                 'row limits forcing 1..k segments; per case one whole-image write to a path plus 3 (quick) or 6 histories with random row-chunk partitions, '
@@ -176,9 +209,10 @@ def run(tier):
         'samples': [fails[0]['case']] if fails else [{'rows': 17, 'cols': 9, 'pixel_type': 'RE16I_IM16I', 'row_limit': 5}],
         'stats': stats,
         'traces_validated_against_impl': stats.get('histories', 0),
-        'disagreements_checked': 0,
+        'disagreements_checked': len(disagreements),
     })
     chk.assumptions += [
+        'the row segmentation the routing theorem speaks about is the regenerated default_image_segmentation (translator tie, Bridge/Loops.lean, Bridge/LoopsPipe.lean)',
         'the protocol model (Spec.Pipeline) is tied to NITFWriter by comparing the real outputs of both protocols and of permuted/flush-interleaved histories byte for byte, not by a translator',
         'metadata equality is checked through to_dict after derive() on both sides, ignoring ImageCreation (documented stamp)',
         'AMP8I_PHS8I: only table-representable pixels are written (exactness expected); quantisation bounds are C08',
@@ -188,12 +222,17 @@ def run(tier):
         chk.violation(f['msg'], {'case': f, 'replay_cmd': './check C02 --replay <this file>'}, True)
     if len(unknown) > 5:
         chk.notes.append(f'{len(unknown)} failing inputs found, first 5 reported')
-    if not unknown and broken:
-        chk.violation('proof obligation no longer checks: ' + '; '.join(broken[:3]), {'broken_obligations': broken}, False)
+    if not unknown and (broken or disagreements):
+        chk.violation('proof obligation or correspondence no longer checks: ' + '; '.join(broken[:3] + [d['msg'][:200] for d in disagreements[:2]]),
+                      {'broken_obligations': broken, 'disagreements': disagreements[:10]}, False)
     chk.coverage['failing_inputs'] = len(fails)
     return chk.finish()
 
 
 def replay(path):
-    print(json.dumps(json.load(open(path))['case'])[:2000])
+    case = json.load(open(path))['case']
+    if isinstance(case.get('case'), dict) and 'kernel' in case['case']:
+        import loops2
+        return loops2.replay_case(case['case'])
+    print(json.dumps(case)[:2000])
     return 1
